@@ -161,6 +161,35 @@ pub fn check_tone(c: &ToneCase, rec: &mut Rec) -> Result<(), String> {
             c.tp, ch, c.clock, c.rate, f, want, secs, got, amp
         ));
     }
+    // the period itself, from the first to the last rising edge: a divider that is off by one count
+    // changes the pitch by less than the crossing count can resolve
+    let mean = tail.iter().sum::<f64>() / tail.len() as f64;
+    let mut edges: Vec<usize> = Vec::new();
+    let mut state = 0i8;
+    for (i, v) in tail.iter().enumerate() {
+        let d = v - mean;
+        if d > amp * 0.25 {
+            if state == -1 {
+                edges.push(i);
+            }
+            state = 1;
+        } else if d < -amp * 0.25 {
+            state = -1;
+        }
+    }
+    if edges.len() >= 12 {
+        let n_periods = (edges.len() - 1) as f64;
+        let got_period = (edges[edges.len() - 1] - edges[0]) as f64 / n_periods;
+        let want_period = c.rate as f64 / f;
+        let tol = 2.0 / n_periods + want_period * 0.0002;
+        if (got_period - want_period).abs() > tol {
+            return Err(format!(
+                "tone period {} on channel {} (clock {}, sample rate {}): one period of f_clk/(16*TP) lasts {:.4} samples; measured over {} periods: {:.4} samples (tolerance {:.4}) — the divider is off",
+                c.tp, ch, c.clock, c.rate, want_period, n_periods, got_period, tol
+            ));
+        }
+        rec.class("tone-period-measured-edge-to-edge");
+    }
     rec.nontrivial(fnv(format!("{}{}", c.tp & 0xFFF, ch).as_bytes()));
     rec.class(if c.rate < 27_800 { "rate-below-27.7kHz" } else if c.rate > 100_000 { "rate-above-100kHz" } else { "rate-mid" });
     if c.tp & 0xFFF == 0 {
@@ -648,7 +677,7 @@ pub fn replay(run: &mut Run, phase: &str, case: &serde_json::Value) -> Result<()
 }
 
 pub const LEVEL: &str = "exploration";
-pub const RULE: &str = "generated (chip AY/YM, chip clock 1.0..2.0 MHz, sample rate 8..384 kHz, stereo mode) x register programmes, judged by signal features: tone = level-crossing count with 25 % hysteresis over >= 20 periods against f_clk/(16*TP) (TP = 0 as 1; judged where f <= fs/4; tolerance 2.5 crossings + 0.4 %), with the register write order permuted; noise = transition rate about half of f_clk/(16*NP) and halving when NP doubles; envelope = for each of the 16 shapes the level at 1/4, 1/2, 3/4 of each of the first four ramps of length 256*EP/f_clk must be strictly falling / rising / at minimum / at maximum as the documented pattern says; volume = DC level strictly increasing over the 16 volumes; mixer = gated-off sources leave a flat line; panning = left/right levels per the mode table; every sample of arbitrary write/generate interleavings finite and |s| <= 4, and its i8/i16/i32 presentations equal to the clipped full-scale product; through the ports: read-back of the selected register (at most masked to its implemented bits), register numbers modulo 16; ports-to-sound: a history of (select, data) OUTs executed by the emulated CPU (biased to R13, volume/mixer registers and to values already held) with 0..1500 samples pulled from the chip after each write must give sample-for-sample the signal of the same register history written directly to the chip with the machine's clock, rate and stereo mode. non-trivial = a judged tone (distinct (TP, channel)), judged noise pair, judged envelope (distinct (shape, EP)), levels case, random programme with >= 2 volume/envelope writes, port history with register numbers above 15, ports-to-sound history of >= 4 writes with a non-zero sample";
+pub const RULE: &str = "generated (chip AY/YM, chip clock 1.0..2.0 MHz, sample rate 8..384 kHz, stereo mode) x register programmes, judged by signal features: tone = level-crossing count with 25 % hysteresis over >= 20 periods against f_clk/(16*TP) (TP = 0 as 1; judged where f <= fs/4; tolerance 2.5 crossings + 0.4 %) and the period measured from the first to the last rising edge (tolerance 2 samples over the run + 0.02 %), with the register write order permuted; noise = transition rate about half of f_clk/(16*NP) and halving when NP doubles; envelope = for each of the 16 shapes the level at 1/4, 1/2, 3/4 of each of the first four ramps of length 256*EP/f_clk must be strictly falling / rising / at minimum / at maximum as the documented pattern says; volume = DC level strictly increasing over the 16 volumes; mixer = gated-off sources leave a flat line; panning = left/right levels per the mode table; every sample of arbitrary write/generate interleavings finite and |s| <= 4, and its i8/i16/i32 presentations equal to the clipped full-scale product; through the ports: read-back of the selected register (at most masked to its implemented bits), register numbers modulo 16; ports-to-sound: a history of (select, data) OUTs executed by the emulated CPU (biased to R13, volume/mixer registers and to values already held) with 0..1500 samples pulled from the chip after each write must give sample-for-sample the signal of the same register history written directly to the chip with the machine's clock, rate and stereo mode. non-trivial = a judged tone (distinct (TP, channel)), judged noise pair, judged envelope (distinct (shape, EP)), levels case, random programme with >= 2 volume/envelope writes, port history with register numbers above 15, ports-to-sound history of >= 4 writes with a non-zero sample";
 pub const ASSUMPTIONS: &[&str] = &[
     "tolerances are stated in the rule; tone pitch is judged only below fs/4 and an envelope only when a ramp spans >= 96 samples and the run fits in 500k samples",
     "panning table is the one in the aym crate's own documentation; volume 0 is silent",
